@@ -590,6 +590,13 @@ impl<T: UciTx, H: Heuristic, M: MoveOrder> Search<T, H, M> {
         })
     }
 
+    /// the horizon valuation on the window (alpha, beta), as inner nodes of the search call it
+    pub(crate) fn verif_quiescence_window(&mut self, bitboard: Bitboard, alpha: i32, beta: i32) -> i32 {
+        self.state.bitboard = bitboard;
+        let zobrist_pawn_hash = self.state.bitboard.calculate_zobrist_pawn_hash();
+        self.search_quiescence(0, &mut Self::create_buffer(), alpha, beta, zobrist_pawn_hash).value
+    }
+
     pub(crate) fn verif_quiescence(&mut self, bitboard: Bitboard) -> i32 {
         self.state.bitboard = bitboard;
         let zobrist_pawn_hash = self.state.bitboard.calculate_zobrist_pawn_hash();
